@@ -70,7 +70,8 @@ def run_shorts_job(job, build):
     arguments `run_inner` collects for the tokenizer (Parser::meta + Meta::collect_shorts, executed
     from MIR) are exactly the sets the token layer assumes for this grammar"""
     from mirsym.engine import parse_callee, Unmodelled, ExecError, BoundExceeded
-    from mirsym.values import Cell, Ref, Seq
+    from mirsym.values import Cell, Ref, Seq, PyIter, Adt, Opaque
+    from mirsym.models import rda, NONE
     prog = tok.load_program(build, "none")
     ex = tok.new_exec(prog)
     g = CORPUS[job["grammar"]]
@@ -83,6 +84,21 @@ def run_shorts_job(job, build):
         meta = ex.call(parse_callee("<P as Parser<T>>::meta"), [Ref(Cell(inner, "inner"), ())])
         flags, args = Cell(Seq(()), "flags"), Cell(Seq(()), "args")
         ex.call(parse_callee("Meta::collect_shorts"), [Ref(Cell(meta, "meta"), ()), Ref(flags, ()), Ref(args, ())])
+        # the table run_inner really hands to the tokenizer: the level's own shorts plus the help and version
+        # shorts (a subcommand's `-V` inside a cluster relies on the top level registering it unconditionally)
+        seen = {}
+
+        def m_construct(ex_, c, a):
+            seen["flags"] = sorted(set(rda(a[1]).items))
+            seen["args"] = sorted(set(rda(a[2]).items))
+            return tok.mk_state(ex_, [])
+        ex.models = dict(ex.models)
+        ex.models["State::construct"] = m_construct
+        ex.models["OptionParser::run_subparser"] = lambda ex_, c, a: Opaque("proceed", ())
+        fl = L.adts["Args"]["fields"]
+        d = {"items": PyIter("vec_into", Seq(()), 0), "name": NONE, "c_rev": NONE}
+        ex.call(parse_callee("OptionParser::run_inner"), [Ref(Cell(parser, "p"), ()), Adt("Args", 0, tuple(d[f] for f in fl))])
+        ex.c01_table = seen
         return (sorted(set(flags.v.items)), sorted(set(args.v.items)))
 
     def on_path(ex, r):
@@ -93,6 +109,14 @@ def run_shorts_job(job, build):
         want_f = sorted(set(ord(c) for c in g.own_short_flags))
         want_a = sorted(set(ord(c) for c in g.own_short_args))
         out["samples"].append({"grammar": g.name, "short_flags": "".join(map(chr, fl)), "short_args": "".join(map(chr, ar))})
+        table = getattr(ex, "c01_table", {})
+        want_tf = sorted(set(g.decl.short_flags))
+        want_ta = sorted(set(g.decl.short_args))
+        if table.get("flags") != want_tf or table.get("args") != want_ta:
+            out["cex"].append({"kind": "tokenizer-table", "grammar": g.name, "shape": [], "argv": [], "env": {},
+                               "predicted": ["shorts", "flags=%s args=%s" % ("".join(map(chr, table.get("flags") or [])), "".join(map(chr, table.get("args") or [])))],
+                               "expected": "flags=%s args=%s (own shorts + help and version shorts)" % ("".join(map(chr, want_tf)), "".join(map(chr, want_ta))), "extra": None,
+                               "native": ["shorts", "n/a"], "reproduced": True})
         if fl != want_f or ar != want_a:
             out["cex"].append({"kind": "short-name-table", "grammar": g.name, "shape": [], "argv": [], "env": {},
                                "predicted": ["shorts", "flags=%s args=%s" % ("".join(map(chr, fl)), "".join(map(chr, ar)))],
